@@ -153,9 +153,10 @@ def db_kinds():
         std_user(b"rostr", b"rostrpw8", "md5", ro='"true"', adm="1"),  # not JSON true: neither read-only nor admin
         std_user(b"desu", b"desupw99", "des"),
         std_user(b"r\xf6s", b"umlautpw", "md5"),
+        std_user(b"bo", b"bopw-prefix", "md5"),                        # a name that is a prefix of another ("bob")
     ]
     truth = {b"alice": b"alicepw1", b"bob": b"bobpw222", b"root": b"rootpw33", b"guest": b"guestpw4", b"roadm": b"roadmpw5",
-             b"noauth": b"noauthp6", b"rostr": b"rostrpw8", b"desu": b"desupw99", b"r\xf6s": b"umlautpw"}
+             b"noauth": b"noauthp6", b"rostr": b"rostrpw8", b"desu": b"desupw99", b"r\xf6s": b"umlautpw", b"bo": b"bopw-prefix"}
     return make_file(users), truth
 
 
@@ -674,9 +675,9 @@ def matrix_scenarios():
                ("admin", (b"root", b"rootpw33")), ("readonly", (b"guest", b"guestpw4")), ("roadm", (b"roadm", b"roadmpw5")),
                ("wrongpw", (b"alice", b"nope")), ("unknown", (b"mallory", b"x")), ("casevariant", (b"ALICE", b"alicepw1")),
                ("shadowed", (b"Alice", b"ALICEPW7")), ("notjsontrue", (b"rostr", b"rostrpw8")), ("noauth", (b"noauth", b"noauthp6")),
-               ("des", (b"desu", b"desupw99")), ("umlaut", (b"r\xf6s", b"umlautpw"))]
+               ("des", (b"desu", b"desupw99")), ("umlaut", (b"r\xf6s", b"umlautpw")), ("prefixname", (b"bo", b"bopw-prefix"))]
     targets = [b"alice", b"bob", b"root", b"guest", b"roadm", b"nopw", b"pwnum", b"noauth", b"Alice", b"ALICE", b"bcrypt", b"odd",
-               b"emptyh", b"rostr", b"desu", b"r\xf6s", b"R\xd6S", b"mallory", b"", b"alic", b"alicee"]
+               b"emptyh", b"rostr", b"desu", b"r\xf6s", b"R\xd6S", b"mallory", b"", b"alic", b"alicee", b"bo"]
     out = []
     rnd = bytes(range(7, 47))
     for cn, cred in callers:
@@ -812,7 +813,7 @@ def fs_scenarios(n, ntiny, thorough):
     return scs
 
 
-NAMES = [b"ann", b"Ann", b"ANN", b"ben", b"cy", b"root", b"Root", b"x", b"dave", b"\xe9ve"]
+NAMES = [b"ann", b"Ann", b"ANN", b"ben", b"cy", b"root", b"Root", b"x", b"xy", b"dave", b"\xe9ve"]
 
 
 def random_scenario(i):
@@ -1046,7 +1047,7 @@ def run(ctx, out):
     n = new_serialisation_length(binp, db_small)
     ntiny = new_serialisation_length(binp, db_tiny)
     scs = matrix_scenarios() + order_scenarios() + fs_scenarios(n, ntiny, ctx.thorough)
-    nrand = 1500 if ctx.thorough else 160
+    nrand = 6000 if ctx.thorough else 400
     scs += [random_scenario(i) for i in range(nrand)]
     # known-finding replays and regression replays
     kf_open = {e["id"]: e for e in C.open_findings("C20")}
@@ -1152,7 +1153,7 @@ def run(ctx, out):
         "reloads": agg["reload"],
         "new_serialisation_bytes": {"small": n, "tiny": ntiny},
         "exhaustive": bool(ctx.thorough),   # quick: the matrix and the single-short-write enumeration are complete, the pairs are strided
-        "exhaustive_what": "caller kind x target kind matrix (14 x 21); ftruncate/lseek/first write outcomes incl. a short write at "
+        "exhaustive_what": "caller kind x target kind matrix (15 x 22); ftruncate/lseek/first write outcomes incl. a short write at "
                            "EVERY byte position of the %d-byte serialisation, each then completed and then failed; " % n
                            + ("EVERY pair of two consecutive short writes on the %d-byte serialisation" % ntiny if ctx.thorough
                               else "pairs of consecutive short writes on a stride (thorough: every pair)"),
